@@ -11,20 +11,39 @@ import (
 // performed; the process dies there (panic VCrash).
 type VFS struct {
 	Files      map[string]bool
+	Unsynced   map[string]bool // created but not yet fsynced: its content does not survive a crash
 	Ops        int
 	CrashAt    int
+	FailAt     int    // the FailAt-th operation (counting fsyncs) fails with an I/O error instead
+	Failed     string // kind of the operation that failed
 	Opened     string // last file opened for reading (Open)
 	SealedDocs string // suffix of the docs file the fraction's index was written for (.docs or .sdocs)
 }
 
 type VCrash struct{}
 
-var VerifFS = &VFS{Files: map[string]bool{}}
+var VerifFS = &VFS{Files: map[string]bool{}, Unsynced: map[string]bool{}}
 
-func (v *VFS) mut() {
+type vIOErr struct{}
+
+func (vIOErr) Error() string { return "injected I/O error" }
+
+// op counts one operation: the process dies at the crash index, the operation fails at the fault index.
+func (v *VFS) op(kind string) error {
 	v.Ops++
 	if v.Ops == v.CrashAt {
 		panic(VCrash{})
+	}
+	if v.Ops == v.FailAt {
+		v.Failed = kind
+		return vIOErr{}
+	}
+	return nil
+}
+
+func (v *VFS) mut() {
+	if err := v.op("open"); err != nil {
+		panic("fault injection is not used for this operation")
 	}
 }
 
@@ -49,17 +68,26 @@ func (v *VFS) Rename(a, b string) error {
 	if !v.Files[a] {
 		return fs.ErrNotExist
 	}
-	v.mut()
+	if err := v.op("rename"); err != nil {
+		return err
+	}
 	delete(v.Files, a)
 	v.Files[b] = true
+	if v.Unsynced[a] {
+		delete(v.Unsynced, a)
+		v.Unsynced[b] = true
+	}
 	return nil
 }
 func (v *VFS) Remove(a string) error {
 	if !v.Files[a] {
 		return fs.ErrNotExist
 	}
-	v.mut()
+	if err := v.op("remove"); err != nil {
+		return err
+	}
 	delete(v.Files, a)
+	delete(v.Unsynced, a)
 	return nil
 }
 func (v *VFS) List() []string {
@@ -76,14 +104,23 @@ func (v *VFS) List() []string {
 var vHandles = map[*os.File]string{}
 
 func (v *VFS) Create(name string) (*os.File, error) {
-	v.mut()
+	if err := v.op("create"); err != nil {
+		return nil, err
+	}
 	v.Files[name] = true
+	v.Unsynced[name] = true
 	h := new(os.File)
 	vHandles[h] = name
 	return h, nil
 }
 func (v *VFS) Seek(h *os.File, off int64, whence int) (int64, error) { return off, nil }
-func (v *VFS) Sync(h *os.File) error                                  { return nil }
+func (v *VFS) Sync(h *os.File) error {
+	if err := v.op("sync"); err != nil {
+		return err
+	}
+	delete(v.Unsynced, vHandles[h])
+	return nil
+}
 func (v *VFS) Close(h *os.File) error                                 { return nil }
 func (v *VFS) RenameFile(h *os.File, newName string) error {
 	err := v.Rename(vHandles[h], newName)
